@@ -20,8 +20,8 @@ def uw1(P, C):
         L = loops[0]
         txt, order = f.alpha(L)
         asc = "ForStmt(unsigned int v0 = 2, (v0 <= $0), (v0++), (v1 *= v0))"
-        desc = "ForStmt(unsigned int v0 = $0, (v0 > 1), (v0--), (v1 *= v0))"
-        desc1 = "ForStmt(unsigned int v0 = ($0 - 1), (v0 > 1), (v0--), (v1 *= v0))"   # with acc = n and an early return for n < 2
+        desc = "ForStmt(unsigned int v0 = $0, (1 < v0), (v0--), (v1 *= v0))"
+        desc1 = "ForStmt(unsigned int v0 = ($0 - 1), (1 < v0), (v0--), (v1 *= v0))"   # with acc = n and an early return for n < 2
         ok_shape = txt in (asc, desc)
         det = "loop %s" % txt
         init = f.nodes[L].get("init", -1)
